@@ -4,6 +4,7 @@ use std::collections::{BTreeMap, BTreeSet};
 use std::fmt::Debug;
 use std::fs::{File, OpenOptions, create_dir, hard_link, metadata, read_dir, remove_file, rename};
 use std::io::{BufRead, BufReader, Write};
+use std::os::unix::fs::MetadataExt;
 use std::path::{Path, PathBuf};
 
 use biometrics::{Collector, Counter};
@@ -274,7 +275,11 @@ impl Manifest {
                     poison: None,
                 };
                 if manifest.is_file() {
-                    this.rollover()?;
+                    if this.rollover_was_interrupted()? {
+                        this.finish_rollover()?;
+                    } else {
+                        this.rollover()?;
+                    }
                 }
                 Ok(this)
             }
@@ -309,11 +314,17 @@ impl Manifest {
 
     /// Rollover the log.
     pub fn rollover(&mut self) -> Result<(), SError> {
-        let edit = Self::to_edit(&self.strs, &self.info);
         let next_id = self.last_rollover;
         self.last_rollover += 1;
         let back = BACKUP(&self.root, next_id);
         self.poison(hard_link(MANIFEST(&self.root), back))?;
+        self.finish_rollover()
+    }
+
+    /// The second half of a rollover:  MANIFEST is linked to its backup; write the rolled-up state
+    /// to the temporary and rename it over MANIFEST.
+    fn finish_rollover(&mut self) -> Result<(), SError> {
+        let edit = Self::to_edit(&self.strs, &self.info);
         let tmp = TEMPORARY(&self.root);
         if tmp.exists() {
             self.poison(remove_file(&tmp))?
@@ -321,6 +332,19 @@ impl Manifest {
         self._apply(&tmp, edit, false)?;
         self.poison(rename(&tmp, MANIFEST(&self.root)))?;
         Ok(())
+    }
+
+    /// A rollover that died between its hard_link and its rename leaves the newest backup and
+    /// MANIFEST as one and the same file.  Rolling over again would create a second backup with
+    /// the same contents, which does not begin with the rollup of its predecessor.
+    fn rollover_was_interrupted(&self) -> Result<bool, SError> {
+        let back = BACKUP(&self.root, self.last_rollover - 1);
+        if self.last_rollover <= 1 || !back.is_file() {
+            return Ok(false);
+        }
+        let back = metadata(back)?;
+        let mani = metadata(MANIFEST(&self.root))?;
+        Ok(back.dev() == mani.dev() && back.ino() == mani.ino())
     }
 
     /// Verify all known invariants of the manifest.
